@@ -291,6 +291,64 @@ def run(ck, tier):
     ck.cov['rule'] = ('one witness input per map-sourced emission site of the catalogue (plus controls), each linted %d times in '
                       'one process with GOMAXPROCS cycling over 1,2,4,16; non-trivial = the witness really produces two '
                       'different diagnostics at one position' % reps)
+    # ---- forced schedules (hook gate of C10): the same multi-file input under two serial orders of the file goroutines
+    for w in ws:
+        if w['name'] not in ('multi-file-shared-broken-action', 'multi-file-one-user-of-broken-action', 'multi-file-order'):
+            continue
+        rec = {'id': 1, 'name': 'record', 'files': w['files'], 'dirs': w['dirs'], 'args': w['args'], 'cwd': 'repo', 'schedule': [], 'single': False}
+        vplib.write_jsonl(os.path.join(sd, 'grec.jsonl'), [rec])
+        vplib.run_harness(['sched-run', os.path.join(sd, 'grec.jsonl'), os.path.join(sd, 'grec-out.jsonl')], timeout=300)
+        ro = vplib.read_jsonl(os.path.join(sd, 'grec-out.jsonl'))[0]
+        if ro.get('panic') or not ro['events']:
+            raise Inconclusive('forced-schedule part: recorded run failed or hook points missing: %s' % ro.get('panic'))
+        prog = {a: [] for a in w['args']}
+        for e in ro['events']:
+            if e['kind'] in ('rw-reg-read', 'rw-read', 'ac-read'):
+                prog[e['file']].append(('reg' if e['kind'] == 'rw-reg-read' else 'use', e['kind'][:2] + ':' + e['spec']))
+        gcases = []
+        import itertools
+        for order in itertools.permutations(w['args']):
+            cache, sched = set(), []
+            for f in order:                                   # serial: one file goroutine after the other
+                sched.append({'f': f, 'a': 'start'})
+                for op, sp in prog[f]:
+                    if op == 'reg':
+                        sched.append({'f': f, 'a': 'regread'})
+                        if sp not in cache:
+                            sched.append({'f': f, 'a': 'regwrite'})
+                    else:
+                        sched.append({'f': f, 'a': 'read'})
+                        if sp not in cache:
+                            sched.append({'f': f, 'a': 'write'})
+                    cache.add(sp)
+                sched.append({'f': f, 'a': 'finish'})
+            gcases.append({'id': len(gcases) + 1, 'name': 'serial:' + ','.join(os.path.basename(x) for x in order), 'files': w['files'],
+                           'dirs': w['dirs'], 'args': w['args'], 'cwd': 'repo', 'schedule': sched, 'single': False})
+        vplib.write_jsonl(os.path.join(sd, 'gcases.jsonl'), gcases)
+        vplib.run_harness(['sched-run', os.path.join(sd, 'gcases.jsonl'), os.path.join(sd, 'gcases-out.jsonl')], timeout=600)
+        gres = vplib.read_jsonl(os.path.join(sd, 'gcases-out.jsonl'))
+        outs = {}
+        for gc, go_ in zip(gcases, gres):
+            if go_.get('panic'):
+                raise Inconclusive('forced-schedule case %s failed: %s' % (gc['name'], go_['panic']))
+            if go_['stuck']:
+                ck.note('forced schedule %s of %s could not be followed: %s' % (gc['name'], w['name'], go_['stuck']))
+                continue
+            outs[gc['name']] = [(d['file'], d['line'], d['col'], d['msg']) for d in go_['diags']] + [('fatal', 0, 0, go_['fatal'])]
+            ck.cov['evaluations'] += 1
+        ck.cov['forced_serial_schedules'] = ck.cov.get('forced_serial_schedules', 0) + len(outs)
+        names = sorted(outs)
+        for n_ in names[1:]:
+            if outs[n_] != outs[names[0]]:
+                from collections import Counter
+                ca, cb = Counter(outs[names[0]]), Counter(outs[n_])
+                differing = sorted({re.sub(r'"/[^"]*vp-det-[0-9]+', '"<root>', x[3]) for x in list((ca - cb).elements()) + list((cb - ca).elements())})
+                ck.violation('nondeterministic:' + w['name'],
+                             'the same files in the same argument order give different results when the file goroutines are forced to run '
+                             'in the order %s instead of %s: differing %s' % (n_, names[0], differing[:3]),
+                             {'kind': 'forced-order', 'witness': w['name'], 'differing_messages': differing or ['<same diagnostics, different order>'],
+                              'case_a': names[0], 'case_b': n_, 'outcome_a': outs[names[0]], 'outcome_b': outs[n_]})
+                break
     # ---- wall clock: a fixed workflow with cron triggers around the next minute boundary, linted before / between / after
     th.join()
     if 'res' not in box:
